@@ -355,6 +355,16 @@ func (c *checker) leaf(cs *wireCase) {
 	sct := ct.SignedCertificateTimestamp{SCTVersion: ct.Version(l.Version), Timestamp: ts, Extensions: ext}
 	entry := ct.LogEntry{Leaf: ct.MerkleTreeLeaf{Version: ct.V1, LeafType: ct.TimestampedEntryLeafType, TimestampedEntry: te}}
 	c.encode("SerializeSCTSignatureInput", cs.SCTInput, func() ([]byte, error) { return ct.SerializeSCTSignatureInput(sct, entry) })
+	// RFC 6962 3.2: timestamp and extensions of the signature input are the SCT's; the entry only contributes
+	// its type and signed_entry.  A leaf whose own copies differ must give the same bytes.
+	te2 := te
+	te2.Timestamp = ts + 1
+	te2.Extensions = append(append(ct.CTExtensions{}, ext...), 0x5a)
+	if len(te2.Extensions) > 65535 {
+		te2.Extensions = nil
+	}
+	entry2 := ct.LogEntry{Leaf: ct.MerkleTreeLeaf{Version: ct.V1, LeafType: ct.TimestampedEntryLeafType, TimestampedEntry: te2}}
+	c.encode("SerializeSCTSignatureInput(leaf copies differ)", cs.SCTInput, func() ([]byte, error) { return ct.SerializeSCTSignatureInput(sct, entry2) })
 
 	extra := cs.Extra.Expand()
 	var extraVal tm.Val
